@@ -487,23 +487,50 @@ impl Oracle for C13Oracle {
 
 pub struct C20Prop;
 
-impl Prop for C20Prop {
-    type Case = History;
-    fn sub(&self) -> &'static str {
-        "gauges"
-    }
-    fn check(&self, h: &History) -> Outcome {
-        let run = || {
-            let mut out = Outcome::default();
-            let mut sim = Sim::new(&h.world);
-            let mut ops: Vec<Option<&Op>> = vec![None];
-            ops.extend(h.ops.iter().map(Some));
-            for op in ops {
+/// One C20 run over an already constructed Sim: after the start and after every operation the
+/// listing (`Pool::get_leases`, what /api/v1/leases.json is rendered from) is compared with the
+/// rows read from the database file by our own connection (file-backed worlds), and the gauges
+/// with the count of rows on each side of the clock.
+fn c20_walk(sim: &mut Sim, ops: &[Op], out: &mut Outcome) {
+    {
+        {
+            let mut steps: Vec<Option<&Op>> = vec![None];
+            steps.extend(ops.iter().map(Some));
+            for op in steps {
                 if let Some(op) = op {
                     sim.step(op);
                 }
                 let w0 = wall_now() as i64;
-                let rows = sim.rows();
+                let rows = match listing_of(sim.pool.as_mut().unwrap()) {
+                    Ok(r) => r,
+                    Err(e) => {
+                        out.fail("C20:listing-error", format!("get_leases failed: {}", e));
+                        return;
+                    }
+                };
+                if let Some(path) = sim.db_path() {
+                    match rows_sql(&path) {
+                        Ok(stored) => {
+                            out.class("listing-compared-with-file");
+                            if stored != rows {
+                                out.fail(
+                                    "C20:listing-differs-from-store",
+                                    format!(
+                                        "the database file holds {} rows, the listing has {}; first difference {:?}",
+                                        stored.len(),
+                                        rows.len(),
+                                        stored.iter().zip(rows.iter()).find(|(a, b)| a != b)
+                                    ),
+                                );
+                                return;
+                            }
+                        }
+                        Err(e) => {
+                            out.excluded.push("file-not-readable");
+                            let _ = e;
+                        }
+                    }
+                }
                 let res = sim.pool.as_mut().unwrap().get_pool_metrics();
                 let w1 = wall_now() as i64;
                 if rows
@@ -532,7 +559,7 @@ impl Prop for C20Prop {
                             },
                             format!("get_pool_metrics failed with {} rows: {}", rows.len(), e),
                         );
-                        return out;
+                        return;
                     }
                     Ok((a, e)) => {
                         if (a, e) != (active, expired) {
@@ -543,8 +570,184 @@ impl Prop for C20Prop {
                                     a, e, active, expired
                                 ),
                             );
-                            return out;
+                            return;
                         }
+                    }
+                }
+            }
+        }
+    }
+}
+
+impl Prop for C20Prop {
+    type Case = History;
+    fn sub(&self) -> &'static str {
+        "gauges"
+    }
+    fn check(&self, h: &History) -> Outcome {
+        let run = || {
+            let mut out = Outcome::default();
+            let mut sim = Sim::new(&h.world);
+            c20_walk(&mut sim, &h.ops, &mut out);
+            out
+        };
+        let first = run();
+        if first.fail.is_some() {
+            let second = run();
+            if second.fail.as_ref().map(|f| &f.sig) != first.fail.as_ref().map(|f| &f.sig) {
+                let mut s = second;
+                s.fail = None;
+                s.excluded.push("transient-not-reproduced");
+                return s;
+            }
+        }
+        first
+    }
+}
+
+// ---------------------------------------------------------------------------------------------
+// C20 (function tier, b): the same walk over a database that an older release wrote
+
+#[derive(Clone, Debug, Serialize, Deserialize)]
+pub struct UpgRow {
+    /// universe index (mapped with pick_idx)
+    pub addr: u16,
+    /// Some(k): the row belongs to client k of the world; None: to `raw_id`
+    pub owner: Option<u16>,
+    pub raw_id: Vec<u8>,
+    /// seconds before the start of the run at which the lease started
+    pub age: u32,
+    pub len: u32,
+    /// in the version-1 layout: Some(blob) stores that option blob, None stores NULL
+    pub options: Option<Vec<u8>>,
+}
+
+#[derive(Clone, Debug, Serialize, Deserialize)]
+pub struct UpgCase {
+    /// None: no version row (what the first releases wrote); Some(0) / Some(1)
+    pub version: Option<i64>,
+    pub version_table: bool,
+    pub rows: Vec<UpgRow>,
+    pub hist: History,
+}
+
+pub fn upg_strategy(p: Profile) -> impl Strategy<Value = UpgCase> {
+    let row = (
+        any::<u16>(),
+        proptest::option::weighted(0.6, any::<u16>()),
+        proptest::collection::vec(any::<u8>(), 1..12),
+        prop_oneof![3 => 0u32..600, 2 => 0u32..100_000],
+        prop_oneof![3 => 0u32..1200, 2 => 0u32..200_000],
+        proptest::option::weighted(0.4, Just(vec![53u8, 1, 1, 255])),
+    )
+        .prop_map(|(addr, owner, raw_id, age, len, options)| UpgRow { addr, owner, raw_id, age, len, options });
+    (
+        prop_oneof![3 => Just(None), 3 => Just(Some(0i64)), 2 => Just(Some(1i64))],
+        any::<bool>(),
+        proptest::collection::vec(row, 1..=8),
+        history_strategy(p),
+    )
+        .prop_map(|(version, version_table, rows, hist)| UpgCase { version, version_table, rows, hist })
+}
+
+pub struct C20Upgrade;
+
+impl Prop for C20Upgrade {
+    type Case = UpgCase;
+    fn sub(&self) -> &'static str {
+        "upgraded-db"
+    }
+    fn check(&self, c: &UpgCase) -> Outcome {
+        let run = || {
+            let mut out = Outcome::default();
+            let path = scratch_path("upg");
+            let _ = std::fs::remove_file(&path);
+            let now = wall_now() as i64;
+            let mut seen = HashSet::new();
+            let v1 = c.version == Some(1);
+            let mut legacy: Vec<Ipv4Addr> = vec![];
+            {
+                let conn = rusqlite::Connection::open(&path).expect("create old db");
+                conn.execute(
+                    if v1 {
+                        "CREATE TABLE leases (address TEXT NOT NULL, chaddr BLOB, clientid BLOB, start INTEGER NOT NULL, expiry INTEGER NOT NULL, options BLOB, PRIMARY KEY (address))"
+                    } else {
+                        "CREATE TABLE IF NOT EXISTS leases (address TEXT NOT NULL, chaddr BLOB, clientid BLOB, start INTEGER NOT NULL, expiry INTEGER NOT NULL, PRIMARY KEY (address))"
+                    },
+                    [],
+                )
+                .unwrap();
+                if c.version.is_some() || c.version_table {
+                    conn.execute(
+                        "CREATE TABLE IF NOT EXISTS schema_version (key TEXT NOT NULL, version INTEGER NOT NULL, PRIMARY KEY (key))",
+                        [],
+                    )
+                    .unwrap();
+                }
+                if let Some(v) = c.version {
+                    conn.execute("INSERT INTO schema_version (key, version) VALUES ('pool', ?1)", rusqlite::params![v])
+                        .unwrap();
+                }
+                for r in &c.rows {
+                    let ip = uaddr(pick_idx(r.addr, c.hist.world.universe as usize) as u8);
+                    if !seen.insert(ip) {
+                        continue;
+                    }
+                    let (chaddr, id): (Vec<u8>, Vec<u8>) = match r.owner {
+                        Some(k) => {
+                            let cl = &c.hist.world.clients[pick_idx(k, c.hist.world.clients.len())];
+                            (cl.chaddr.clone(), cl.identity())
+                        }
+                        None => (vec![2, 9, 9, 9, 9, 9], r.raw_id.clone()),
+                    };
+                    let start = (now - r.age as i64).max(0);
+                    let expiry = (start + r.len as i64).min(u32::MAX as i64);
+                    if v1 {
+                        conn.execute(
+                            "INSERT INTO leases (address, chaddr, clientid, start, expiry, options) VALUES (?1, ?2, ?3, ?4, ?5, ?6)",
+                            rusqlite::params![ip.to_string(), chaddr, id, start, expiry, r.options],
+                        )
+                        .unwrap();
+                    } else {
+                        conn.execute(
+                            "INSERT INTO leases (address, chaddr, clientid, start, expiry) VALUES (?1, ?2, ?3, ?4, ?5)",
+                            rusqlite::params![ip.to_string(), chaddr, id, start, expiry],
+                        )
+                        .unwrap();
+                    }
+                    if !v1 || r.options.is_none() {
+                        legacy.push(ip);
+                    }
+                }
+            }
+            out.class(match c.version {
+                None => "no-version-row",
+                Some(0) => "version-0",
+                _ => "version-1",
+            });
+            let mut w = c.hist.world.clone();
+            w.file_backed = true;
+            let mut sim = match Sim::with_existing_db(&w, path.clone()) {
+                Ok(s) => s,
+                Err(e) => {
+                    let _ = std::fs::remove_file(&path);
+                    out.fail("C20:older-database-not-opened", e);
+                    return out;
+                }
+            };
+            c20_walk(&mut sim, &c.hist.ops, &mut out);
+            if out.fail.is_none() {
+                // which rows written before the options column existed are still there?
+                if let Ok(stored) = rows_sql(&path) {
+                    let still = stored.iter().filter(|r| legacy.contains(&r.ip) && r.options.is_empty()).count();
+                    if still > 0 && stored.len() > still {
+                        out.nontrivial = true;
+                        out.class("legacy-rows-beside-new-ones");
+                    } else if still > 0 {
+                        out.nontrivial = true;
+                        out.class("only-legacy-rows");
+                    } else {
+                        out.class("legacy-rows-all-replaced");
                     }
                 }
             }
@@ -997,6 +1200,7 @@ pub fn replay(id: &str, sub: &str, case: &serde_json::Value) -> Option<Result<Ou
             Some(replay_prop(&hist_prop(id), case))
         }
         ("C20", "gauges") => Some(replay_prop(&C20Prop, case)),
+        ("C20", "upgraded-db") => Some(replay_prop(&C20Upgrade, case)),
         ("C18", "reopen") => Some(replay_prop(&C18Reopen, case)),
         ("C18", "oldschema") => Some(replay_prop(&C18OldSchema, case)),
         _ => None,
@@ -1012,5 +1216,11 @@ pub fn run_c18_func(ctx: &Ctx) {
 
 pub fn run_c20_func(ctx: &Ctx) {
     let n = ctx.tier.pick(16_000u64, 400_000u64);
-    run_prop(ctx, &C20Prop, || history_strategy(profile_for("C20", ctx.tier, false)), n, workers());
+    run_prop(ctx, &C20Prop, || history_strategy(profile_for("C20", ctx.tier, false)), n * 3 / 4, workers());
+    // file backed: the listing is compared with the rows our own connection reads from the file
+    run_prop(ctx, &C20Prop, || history_strategy(profile_for("C20", ctx.tier, true)), n / 8, workers());
+    // file written by an older release (no version row / version 0 / version 1 with NULL blobs)
+    let mut p = profile_for("C20", ctx.tier, true);
+    p.max_ops = ctx.tier.pick(16, 40);
+    run_prop(ctx, &C20Upgrade, || upg_strategy(p), n / 8, workers());
 }
